@@ -30,7 +30,9 @@ theorem carryOne_recs (s : St) (p : Path) (a : Addr) (m : Method) (f : Bool) :
   unfold St.carryOne
   split
   · rw [recheckFromCache_recs]; rfl
-  · exact carryOneMove_recs s p a m f
+  · split
+    · rw [recheckFromCache_recs]; rfl
+    · exact carryOneMove_recs s p a m f
 
 /-- **C01_recheck_restores**: if path `p` is tracked with current digest `d` and the object for it is
     in the cache, then after *deleting* the workspace copy (`recheck`), or after *any* damage to it
@@ -76,7 +78,7 @@ theorem carryOne_moves (s : St) (p : Path) (a : Addr) (m : Method) (b : Bytes) (
     (s.carryOne p a m false).1.cache a = some ⟨b, true, st⟩ := by
   unfold St.carryOne
   have hl : s.linksTo p a = false := by simp [St.linksTo, hw]
-  simp only [hl, Bool.false_eq_true, if_false]
+  simp only [hl, Bool.false_eq_true, if_false, Bool.false_and]
   unfold St.carryOneMove
   simp only [hnone, Option.isSome_none, Bool.false_eq_true, if_false]
   have hd : s.deref p = s := by simp [St.deref, hw]
